@@ -75,7 +75,7 @@ def _wrapped(dassh_inp, args, timestep, wdir, link=None):
     finally:
         STATE['wdir'] = None
 M._run_dassh = _wrapped
-M.main([sys.argv[1]])
+M.main([sys.argv[1]] + sys.argv[2:])
 '''
 
 
@@ -318,7 +318,7 @@ def run_history(case, res):
 # command-line runs
 
 
-def run_cli(workdir, input_name, hashseed, audit=True):
+def run_cli(workdir, input_name, hashseed, audit=True, extra=()):
     runner = os.path.join(workdir, '_runner.py')
     with open(runner, 'w') as f:
         f.write(_RUNNER % {'src': env.SRC})
@@ -326,7 +326,8 @@ def run_cli(workdir, input_name, hashseed, audit=True):
     e['PYTHONHASHSEED'] = str(hashseed)
     e['VMON_AUDIT_LOG'] = os.path.join(workdir, '_audit')
     e['PYTHONDONTWRITEBYTECODE'] = '1'
-    p = subprocess.run([PY, runner, os.path.join(workdir, input_name)],
+    p = subprocess.run([PY, runner, os.path.join(workdir, input_name)]
+                       + list(extra),
                        cwd=workdir, env=e, stdout=subprocess.PIPE,
                        stderr=subprocess.STDOUT, timeout=600)
     return p.returncode, p.stdout.decode(errors='replace')[-1500:]
@@ -399,7 +400,9 @@ def run_schedule(case, res):
     P, feats = build_problem(rng, small=True)
     n_tp = int(rng.integers(2, 5))
     share = bool(rng.random() < 0.5)
-    key = {'n_tp': n_tp, 'share_csv': share}
+    save = bool(case['seed'][-1] % 2 == 0)   # --save_reactor: one more output
+    extra = ['--save_reactor'] if save else []
+    key = {'n_tp': n_tp, 'share_csv': share, 'save_reactor': save}
     ref = {}
     with drive.scratch() as base:
         # reference: every time point alone (single-time-point input)
@@ -411,7 +414,7 @@ def run_schedule(case, res):
                 'user_power = ' + ', '.join(names),
                 'user_power = ' + names[i])
             open(path, 'w').write(txt)
-            rc, log = run_cli(d, 'input.txt', 0)
+            rc, log = run_cli(d, 'input.txt', 0, extra=extra)
             if rc != 0:
                 raise drive.Rejected('cli', [('ERROR', log[-300:])])
             ref[i] = collect(d)
@@ -422,7 +425,8 @@ def run_schedule(case, res):
             d = os.path.join(base, name)
             os.makedirs(d)
             write_multi(P, d, n_tp, par, ncpu, share)
-            rc, log = run_cli(d, 'input.txt', int(rng.integers(1, 1000)))
+            rc, log = run_cli(d, 'input.txt', int(rng.integers(1, 1000)),
+                              extra=extra)
             res.check('S0_schedule_run_completes', rc == 0,
                       'command-line run (%s, %d time points) exited %d: %s'
                       % (name, n_tp, rc, log[-300:]),
@@ -432,6 +436,16 @@ def run_schedule(case, res):
             for i in range(n_tp):
                 td = os.path.join(d, 'timestep_%d' % (i + 1))
                 got = collect(td) if os.path.isdir(td) else {}
+                if save:
+                    res.check('S3_saved_model_in_own_directory',
+                              os.path.exists(os.path.join(
+                                  td, 'dassh_reactor.pkl')) and not
+                              os.path.exists(os.path.join(
+                                  d, 'dassh_reactor.pkl')),
+                              'time point %d under schedule %s: saved model '
+                              'not in its own directory (or one left next '
+                              'to the input)' % (i + 1, name),
+                              dict(key, schedule=name))
                 same_names = sorted(got) == sorted(ref[i])
                 diffs = [f for f in ref[i] if got.get(f) != ref[i][f]]
                 res.check('S1_schedule_outputs_equal',
